@@ -10,7 +10,8 @@ Oracle (relational): the same stream delivered in one piece and delivered split 
 request list, the same written bytes, the same close/no-close decision and the same exception (if
 any) out of dataReceived.  Responses are a deterministic function of the recorded request (status,
 Content-Length vs chunked, number of writes); some answers are deferred and finished later by the
-harness scheduler, at schedule points that differ between the two runs.
+harness scheduler, at schedule points that differ between the two runs; a few answers raise (an
+Exception or a BaseException-only class) or call request.loseConnection() before/after finishing.
 
 False-alarm guards: the harness stops delivering after the server called loseConnection(), as a TCP
 transport stops reading (otherwise line-buffer leftovers after a 400 would be parsed on the next
@@ -40,7 +41,8 @@ ASSUMPTIONS = ["trusted base: netsim.SimTransport models a TCP transport (stops 
                "Site configuration: the Date header value is masked because twisted.web.server takes it from the wall clock"]
 SHARDS = {"quick": 4, "thorough": 16}
 FLOORS = {"split_runs_compared": 2000, "requests_compared": 2000, "streams_with_400": 20, "streams_with_deferred_answer": 20,
-          "streams_with_100_continue": 5, "limit_streams": 10, "limit_streams_chunkline": 3}
+          "streams_with_100_continue": 5, "limit_streams": 10, "limit_streams_chunkline": 3,
+          "streams_with_application_exception": 20, "streams_with_application_close": 20}
 READY = True
 
 
@@ -131,7 +133,11 @@ class Server:
         if not self.pending:
             return False
         request, plan = self.pending.pop(0)
-        answer(self, request, plan)
+        try:
+            answer(self, request, plan)
+        except (Exception, AppAbort) as e:  # raised by the application (possibly by the next request's process() beneath finish())
+            self.exception = "%s: %s" % (type(e).__name__, str(e)[:200])
+            self.events.append(("srv", "exception-in-deferred-answer", self.exception))
         self._drain_held()
         return True
 
@@ -152,7 +158,7 @@ class Server:
     def _deliver(self, data):
         try:
             self.proto.dataReceived(data)
-        except Exception as e:  # a real reactor logs this and drops the connection
+        except (Exception, AppAbort) as e:  # a real reactor logs this and drops the connection
             self.exception = "%s: %s" % (type(e).__name__, str(e)[:200])
             self.events.append(("srv", "exception", self.exception))
 
@@ -205,10 +211,26 @@ def plan_for(rec, index):
     code = (200, 200, 201, 404, 204, 304, 500, 302)[h[0] % 8]
     npieces = h[1] % 4
     pieces = [bytes([65 + (h[2] + i) % 26]) * (1 + (h[3] + 7 * i) % 40) for i in range(npieces)]
-    return {"code": code, "pieces": pieces, "use_cl": h[4] % 3 == 0, "defer": h[5] % 4 == 0, "index": index}
+    quirk = {0: "raise-exc", 1: "raise-base", 2: "lose-before-finish", 3: "lose-before-finish"}.get(h[6] % 24)
+    return {"code": code, "pieces": pieces, "use_cl": h[4] % 3 == 0, "defer": h[5] % 4 == 0, "index": index, "quirk": quirk}
+
+
+class AppError(Exception):
+    """Raised on purpose by the harness application."""
+
+
+class AppAbort(BaseException):
+    """Same, but not an Exception subclass."""
 
 
 def answer(server, request, plan):
+    quirk = plan.get("quirk")
+    if quirk in ("raise-exc", "raise-base"):  # application code that raises at the process()/finish call-out
+        server.events.append(("app", quirk, plan["index"]))
+        raise (AppError if quirk == "raise-exc" else AppAbort)("injected by the harness application, request %d" % plan["index"])
+    if quirk == "lose-before-finish":  # re-entrant close from inside process()
+        server.events.append(("app", quirk, plan["index"]))
+        request.loseConnection()
     request.setResponseCode(plan["code"])
     request.setHeader(b"X-Req", b"%d" % plan["index"])
     if plan["use_cl"]:
@@ -257,6 +279,7 @@ def run_delivery(config, pieces, finish_points=(), sync_close=False):
             "stuck": bool(s.pending or s.held),
         }
         obs["n_deferred"] = sum(1 for e in s.events if e[:2] == ("app", "deferred"))
+        obs["n_app_close"] = sum(1 for e in s.events if e[0] == "app" and e[1] == "lose-before-finish")
         return obs
     finally:
         s.cleanup()
@@ -405,9 +428,13 @@ def check_stream(ctx, rng, config, stream, desc, extra_marks=(), sync_close=Fals
         ctx.count("streams_with_400")
     if whole["n_deferred"]:
         ctx.count("streams_with_deferred_answer")
+    if whole["n_app_close"]:
+        ctx.count("streams_with_application_close")
     if b"100 Continue" in whole["output"]:
         ctx.count("streams_with_100_continue")
-    if whole["exception"]:
+    if whole["exception"] and whole["exception"].startswith(("AppError", "AppAbort")):
+        ctx.count("streams_with_application_exception")
+    elif whole["exception"]:
         ctx.count("streams_with_exception")
         ctx.seen("exceptions", whole["exception"][:80])
     ctx.count("requests_delivered_whole", len(whole["requests"]))
